@@ -2,7 +2,7 @@
    generic.go, database.go, records.go), written function by function in the shape of the Go code: the slice-backed List,
    Set and ZSet with their loops, the map-backed Hash and record table as association lists (Go map iteration order is
    arbitrary; replies that expose it are compared as sets by the correspondence run).
-   NOT modelled (sprim answers like the reference): expiry (EXPIRE / TTL need a clock), SCAN's cursor arithmetic.
+   NOT modelled (sprim answers like the reference): expiry (EXPIRE / TTL need a clock).
    Floats: scores are exact (Handler.fl); Go's float64 comparison operators are the model's fl_lt / fl_le on non-NaN values. *)
 From Coq Require Import String QArith Lia.
 From GR Require Import Base Resp Handler Exec Glob Redis.
@@ -165,6 +165,45 @@ Fixpoint g_del (d : db) (ks : list bytes) (removed : Z) : db * Z :=
 Fixpoint g_exists (d : db) (ks : list bytes) (n : Z) : Z :=
   match ks with [] => n | k :: r => g_exists d r (if ahas d k then n + 1 else n) end.
 
+(* ---------- generic.go Scan ---------- *)
+(* keys := db.Keys(); sort.Strings(keys) — Go compares strings bytewise; the record table holds each key once *)
+Fixpoint insert_key (k : bytes) (l : list bytes) : list bytes :=
+  match l with
+  | [] => [k]
+  | x :: r => if bytes_lt x k then x :: insert_key k r else k :: l
+  end.
+Definition sort_keys (l : list bytes) : list bytes := fold_right insert_key [] l.
+
+(* opt.MatchPattern.MatchString(key): the option carries the source text of the compiled expression *)
+Definition scan_match (src k : bytes) : bool :=
+  match re_parse src with Some r => re_match r k | None => false end.
+
+(* nextCursor := 0
+   for n, key := range keys {
+     if n < cursor { continue }
+     if !opt.MatchPattern.MatchString(key) { continue }
+     matchKeys.Append(key)
+     if opt.Count <= matchKeys.Size() { nextCursor = n + 1; break }
+   }                                                                   (0, acc) = the loop ran to the end *)
+Fixpoint g_scan_loop (keys : list bytes) (n cursor count : Z) (src : bytes) (acc : list bytes) : Z * list bytes :=
+  match keys with
+  | [] => (0, acc)
+  | k :: r =>
+    if n <? cursor then g_scan_loop r (n + 1) cursor count src acc
+    else if negb (scan_match src k) then g_scan_loop r (n + 1) cursor count src acc
+    else let acc' := acc ++ [k] in
+         if count <=? Z.of_nat (length acc') then (n + 1, acc') else g_scan_loop r (n + 1) cursor count src acc'
+  end.
+
+(* one SCAN call on the sorted key list: (cursor returned, keys returned);  if len(keys) <= nextCursor { nextCursor = 0 } *)
+Definition scan_call (keys : list bytes) (cursor count : Z) (src : bytes) : Z * list bytes :=
+  let (nx, ks) := g_scan_loop keys 0 cursor count src [] in
+  ((if Z.of_nat (length keys) <=? nx then 0 else nx), ks).
+
+Definition g_scan (d : db) (cursor : Z) (o : scan_opt) : hresult :=
+  let (nx, ks) := scan_call (sort_keys (map fst d)) cursor (sc_count o) (sc_match o) in
+  ok (RArr [bulk (itoa nx); RArr (map bulk ks)]).
+
 Definition invalid_type : hresult := err "invalid stored data type".
 
 Definition zitems (ws : bool) (l : list (bytes * fl)) : hresult :=
@@ -187,7 +226,7 @@ Definition sprim (d : db) (c : hcall) : db * hresult :=
     end
   | HType k => (d, ok (RStatus (match aget d k with Some v => bytes_of_string (type_name v) | None => B"none" end)))
   | HTTL k => (d, r_int (if ahas d k then -1 else -2))                         (* no TTL is ever set in the model *)
-  | HScan _ _ => (d, ok (RArr [bulk (B"0"); RArr []]))                          (* not modelled *)
+  | HScan cur o => (d, g_scan d cur o)
   | HSet k v o =>
     if so_xx o && negb (ahas d k) then (d, r_nil)
     else if so_nx o then (if ahas d k then (d, r_int 0) else (aset d k (VStr v), r_int 1))
